@@ -272,3 +272,26 @@ func vh_run_releases() {
 	vAssert(len(results) <= 1 && len(results) >= before, "C13/run/at-most-one-result")
 	vObserve("n", len(results))
 }
+
+// ---- what "marked idempotent" means for the real query types ----
+//
+// executeQuery's speculative-execution gate (and the documented retry rule) read IsIdempotent() of the
+// real *Query / *Batch. A batch is idempotent only if EVERY entry is: one non-idempotent statement makes
+// re-sending the batch a duplicate write.
+func vh_idempotent_flag() {
+	n := vBound("entries")
+	b := &Batch{}
+	all := true
+	for i := 0; i < n; i++ {
+		f := vBool("entry_idempotent")
+		b.Entries = append(b.Entries, BatchEntry{Stmt: "s", Idempotent: f})
+		all = all && f
+	}
+	vAssert(b.IsIdempotent() == all, "C13/batch/idempotent-only-if-every-entry-is")
+	q := &Query{}
+	f := vBool("query_idempotent")
+	vAssert(!q.IsIdempotent(), "C13/query/not-idempotent-unless-marked")
+	q.Idempotent(f)
+	vAssert(q.IsIdempotent() == f, "C13/query/idempotent-as-marked")
+	vObserve("all", all)
+}
